@@ -98,6 +98,23 @@ class RelRow:
         self.rel, self.d = rel, d
 
 
+class IntSet:
+    """python set of ints: characteristic function Int -> Bool"""
+
+    def __init__(self, has):
+        self.has = has
+
+    def member(self, x):
+        return z3.Select(self.has, as_int(x))
+
+
+class ImageSet:
+    """arr[list(S)]: the collection {arr[x] : x in S} (only membership tests are supported)"""
+
+    def __init__(self, arr, st):
+        self.arr, self.st = arr, st
+
+
 class Opaque:
     """Value of an expression outside the subset, in `opaque_ok` (block extraction) mode: completely unconstrained.  Every integer / boolean
     observation of it is a fresh unconstrained term, so whatever the real expression computes is covered (sound over-approximation for
@@ -112,6 +129,7 @@ A1 = z3.ArraySort(I, I)
 A2 = z3.ArraySort(I, A1)
 AB = z3.ArraySort(I, z3.ArraySort(I, z3.BoolSort()))
 ABB = z3.ArraySort(I, AB)
+AS = z3.ArraySort(I, z3.BoolSort())
 
 _fresh = [0]
 
@@ -133,6 +151,8 @@ def fresh_like(name, v):
         return PairList(fresh(name + "_0", A1), fresh(name + "_1", A1), fresh(name + "_len"))
     if isinstance(v, TripleRel):
         return TripleRel(fresh(name + "_rel", ABB), v.length)
+    if isinstance(v, IntSet):
+        return IntSet(fresh(name + "_set", AS))
     if isinstance(v, Small):
         s = Small(v.shape)
         if len(v.shape) == 1:
@@ -216,6 +236,12 @@ class ExprEval:
     def ev_Tuple(self, n):
         return tuple(self.ev(e) for e in n.elts)
 
+    def ev_Set(self, n):
+        has = z3.K(I, z3.BoolVal(False))
+        for e in n.elts:
+            has = z3.Store(has, as_int(self.ev(e)), z3.BoolVal(True))
+        return IntSet(has)
+
     def ev_UnaryOp(self, n):
         v = self.ev(n.operand)
         if isinstance(n.op, ast.USub) and isinstance(v, Small) and len(v.shape) == 1:
@@ -256,6 +282,15 @@ class ExprEval:
         for op, l, r in zip(n.ops, terms, terms[1:]):
             if isinstance(op, (ast.In, ast.NotIn)):
                 key, cont = self.ev(l), self.ev(r)
+                if isinstance(cont, IntSet):
+                    t = cont.member(key)
+                    parts.append(t if isinstance(op, ast.In) else z3.Not(t))
+                    continue
+                if isinstance(cont, ImageSet):
+                    q = fresh("img")
+                    t = z3.Exists([q], z3.And(cont.st.member(q), as_int(cont.arr.get(q)) == as_int(key)))
+                    parts.append(t if isinstance(op, ast.In) else z3.Not(t))
+                    continue
                 if isinstance(cont, RelRow) and isinstance(key, tuple) and len(key) == 2:
                     t = cont.rel.member(as_int(cont.d), as_int(key[0]), as_int(key[1]))
                     parts.append(t if isinstance(op, ast.In) else z3.Not(t))
@@ -332,6 +367,8 @@ class ExprEval:
             s0 = idx[0]
             if not isinstance(s0, ast.Slice):
                 iv = self.ev(s0)
+                if isinstance(iv, IntSet):
+                    return ImageSet(base, iv)
                 if isinstance(iv, tuple):
                     return tuple(base.get(as_int(x)) for x in iv)
             if isinstance(s0, ast.Slice):
@@ -402,6 +439,30 @@ class ExprEval:
             if isinstance(v, TripleRel):
                 return v.length
             raise Unsupported("len of %s" % type(v).__name__)
+        if name == "list" and len(n.args) == 1:
+            v = self.ev(n.args[0])
+            if isinstance(v, (IntSet, tuple)):
+                return v
+            raise Unsupported("list() of this value")
+        if name == "next" and len(n.args) == 1 and isinstance(n.args[0], ast.GeneratorExp) and self.engine is not None:
+            # next(x for x in range(n) if cond(x)): the least x in [0, n) with cond(x); its existence (no StopIteration) is an obligation
+            g = n.args[0]
+            gen = g.generators[0]
+            if (len(g.generators) != 1 or not isinstance(g.elt, ast.Name) or not isinstance(gen.target, ast.Name) or g.elt.id != gen.target.id
+                    or not (isinstance(gen.iter, ast.Call) and getattr(gen.iter.func, "id", None) == "range" and len(gen.iter.args) == 1)):
+                raise Unsupported("next() of this generator")
+            bound = as_int(self.ev(gen.iter.args[0]))
+
+            def cond(x):
+                sub = ExprEval(dict(self.env, **{gen.target.id: x}), self.engine)
+                return z3.And(*[as_bool(sub.ev(c)) for c in gen.ifs]) if gen.ifs else z3.BoolVal(True)
+
+            w = fresh("cand")
+            if not self.engine.contract.get("assume_next_exists"):
+                self.engine.emit("next[generator is not exhausted]", self.engine.curpath, z3.Exists([w], z3.And(0 <= w, w < bound, cond(w))), n.lineno)
+            c, q = fresh("next"), fresh("q")
+            self.engine.curpath = self.engine.curpath + [0 <= c, c < bound, cond(c), z3.ForAll([q], z3.Implies(z3.And(0 <= q, q < c), z3.Not(cond(q))))]
+            return c
         if name == "tuple" and len(n.args) == 1:
             v = self.ev(n.args[0])
             if isinstance(v, (RelRow, tuple)):
@@ -577,6 +638,10 @@ class Engine:
             return Arr2(a, tuple(shape))
         if kind == "pairdict":
             return PairDict(z3.Const(name + "_has", AB), z3.Const(name + "_val", A2))
+        if kind == "rel":
+            n = z3.Int("len_" + name)
+            path.append(n >= 0)
+            return TripleRel(z3.Const(name + "_rel", ABB), n)
         if kind == "tuple":
             return tuple(z3.Int("%s_%d" % (name, i)) for i in range(decl[1]))
         raise Unsupported("argument kind %s" % kind)
@@ -604,6 +669,15 @@ class Engine:
         if isinstance(st, ast.Expr):
             if isinstance(st.value, ast.Constant):
                 return [(env, path)]
+            if (isinstance(st.value, ast.Call) and isinstance(st.value.func, ast.Attribute) and st.value.func.attr in ("add", "remove", "discard")
+                    and isinstance(st.value.func.value, ast.Name) and isinstance(env.get(st.value.func.value.id), IntSet)):
+                cur = env[st.value.func.value.id]
+                x = as_int(ExprEval(env, self).ev(st.value.args[0]))
+                if st.value.func.attr == "remove":
+                    self.emit("raises[KeyError in set.remove]", self.curpath, cur.member(x), st.lineno)
+                env = dict(env)
+                env[st.value.func.value.id] = IntSet(z3.Store(cur.has, x, z3.BoolVal(st.value.func.attr == "add")))
+                return [(env, self.curpath)]
             if isinstance(st.value, ast.Call) and isinstance(st.value.func, ast.Attribute) and st.value.func.attr == "append":
                 lst = ExprEval(env, self).ev(st.value.func.value)
                 item = ExprEval(env, self).ev(st.value.args[0])
@@ -869,6 +943,32 @@ class Engine:
             n = arr.length
             mode = "enumerate"
         else:
+            itv = ee.ev(it)
+            if isinstance(itv, tuple):
+                # literal-length sequence: unroll
+                states = [(env, path)]
+                for item in itv:
+                    nxt = []
+                    for e, p in states:
+                        e = self.assign(st.target, item, e, p, st.lineno)
+                        nxt.extend(self.exec_block(st.body, e, p))
+                    states = nxt
+                return states
+            if (isinstance(itv, RelRow) and isinstance(st.target, ast.Tuple) and len(st.target.elts) == 2 and len(st.body) == 1 and isinstance(st.body[0], ast.Expr)
+                    and isinstance(st.body[0].value, ast.Call) and isinstance(st.body[0].value.func, ast.Attribute) and st.body[0].value.func.attr == "add"
+                    and isinstance(st.body[0].value.func.value, ast.Name) and isinstance(env.get(st.body[0].value.func.value.id), IntSet)
+                    and len(st.body[0].value.args) == 1 and isinstance(st.body[0].value.args[0], ast.Name)
+                    and st.body[0].value.args[0].id in [getattr(t, "id", None) for t in st.target.elts]):
+                # `for a, b in rel[d]: S.add(a)`  ==>  S := S u {a | exists b: (a, b) in rel[d]}   (exact summary of the loop; no invariant needed)
+                sname = st.body[0].value.func.value.id
+                first = st.body[0].value.args[0].id == getattr(st.target.elts[0], "id", None)
+                cur = env[sname]
+                x, y = fresh("sx"), fresh("sy")
+                mem = itv.rel.member(as_int(itv.d), x, y) if first else itv.rel.member(as_int(itv.d), y, x)
+                new = z3.Lambda([x], z3.Or(z3.Select(cur.has, x), z3.Exists([y], mem)))
+                env = dict(env)
+                env[sname] = IntSet(new)
+                return [(env, path)]
             raise Unsupported("for over this iterable")
         nv = z3.simplify(n)
         if spec is None:
